@@ -25,7 +25,7 @@ fn lens(s: &str) -> String {
 }
 fn show_impl(r: &Result<Option<(String, bool)>, String>) -> String {
     match r {
-        Err(e) => format!("panic {e}"),
+        Err(_) => "panic".into(),
         Ok(None) => "none".into(),
         Ok(Some((t, tr))) => format!("some {} {}", cps(t), if *tr { 1 } else { 0 }),
     }
@@ -38,7 +38,11 @@ fn run_impl(input: &str, limit: usize) -> Result<Option<(String, bool)>, String>
 /// ask the model: the filter in front of NFKC and the cleaning are the model's; NFKC and the
 /// segmentation of the model's own cleaned text are computed here with the real crates
 fn run_model(drv: &mut Driver, input: &str, limit: usize, op: &str) -> String {
-    let pre = drv.ask(&format!("pre {}", cps(input)));
+    let pre = match op {
+        "normfix" => drv.ask(&format!("prefix {}", cps(input))),
+        "normorig" => cps(input),
+        _ => drv.ask(&format!("pre {}", cps(input))),
+    };
     let Some(pre_s) = from_cps(&pre) else { return format!("model-pre:{pre}") };
     let nf: String = pre_s.nfkc().collect();
     let cl = drv.ask(&format!("clean {}", cps(&nf)));
@@ -292,8 +296,11 @@ fn run_trunc_case(s: &str, limit: usize, drv: &mut Option<Driver>, sum: &mut Sum
 
 /// the laws the theorems assume of the black boxes, sampled on the real crates
 fn check_laws(s: &str, other: &str, rng: &mut Rng, sum: &mut Summary) {
+    let cp = |x: &str| x.chars().map(|c| c as u32).collect::<Vec<_>>();
+    let (sc, oc) = (cp(s), cp(other));
     let law = |sum: &mut Summary, name: &str, detail: String| {
-        sum.disagreement(&format!("black-box law violated on the real crate: {name}"), json!({"detail": detail}), "law holds", "law fails");
+        sum.disagreement(&format!("black-box law violated on the real crate: {name}"),
+            json!({"kind": "law", "s": sc, "other": oc, "detail": detail}), "law holds", "law fails");
     };
     let n: String = s.nfkc().collect();
     if !is_nfkc(&n) || n.nfkc().collect::<String>() != n { law(sum, "nfkc_idem", format!("{:?}", s)); }
@@ -367,6 +374,18 @@ fn main() {
     if args.mode == "replay" {
         let case = load_replay(args.replay_file.as_ref().expect("replay file"));
         let input = case.get("input").filter(|i| i.is_object()).unwrap_or(&case);
+        let to_s = |v: &Value| -> String { v.as_array().map(|a| a.iter().map(|x| char::from_u32(x.as_u64().unwrap() as u32).unwrap()).collect()).unwrap_or_default() };
+        match input["kind"].as_str() {
+            Some("tables") => { check_tables(&mut drv, &mut sum); sum.finish(&args); }
+            Some("law") => {
+                let (a, b) = (to_s(&input["s"]), to_s(&input["other"]));
+                println!("law check on {} / {}", a.escape_unicode(), b.escape_unicode());
+                let mut rng = Rng::new(args.seed);
+                for _ in 0..200 { check_laws(&a, &b, &mut rng, &mut sum); if !sum.disagreements.is_empty() { break; } }
+                sum.finish(&args);
+            }
+            _ => {}
+        }
         let text: String = input["input"].as_array().expect("input code points").iter()
             .map(|v| char::from_u32(v.as_u64().unwrap() as u32).unwrap()).collect();
         let limit: usize = input["limit"].as_str().map(|s| s.parse().unwrap()).or(input["limit"].as_u64().map(|x| x as usize)).expect("limit");
@@ -396,7 +415,7 @@ fn main() {
         run_trunc_case(&s, l, &mut drv, &mut sum);
     }
     let mut rng = Rng::new(args.seed);
-    let n = if args.thorough { 150_000 } else { 12_000 };
+    let n = if args.thorough { 300_000 } else { 30_000 };
     let mut prev = String::from("abc");
     for i in 0..n {
         let input = gen_input(&mut rng, args.thorough);
